@@ -350,8 +350,8 @@ EvalAgg(sc, i, t) ==
   IF n.fn \notin AggFns THEN Res(FALSE, TRUE, <<>>)
   ELSE IF n.fn \in {"topk", "bottomk"} THEN
        \* k is converted with int64(); NaN and out-of-range values are an error
-       IF Len(a.vec) = 0 THEN Res(a.err \/ p.err, a.unk \/ p.unk, <<>>)
-       ELSE IF pv.k \in {"nan", "pinf", "ninf"} THEN Res(TRUE, a.unk \/ p.unk, <<>>)
+       \* (the conversion is done at every step, also when the operand is empty at that step)
+       IF pv.k \in {"nan", "pinf", "ninf"} THEN Res(TRUE, a.unk \/ p.unk, <<>>)
        ELSE IF pv.k = "op" THEN Res(a.err \/ p.err, TRUE, <<>>)
        ELSE IF pv.v < 1 THEN Res(a.err \/ p.err, a.unk \/ p.unk, <<>>)
        ELSE LET sel(k) == TopK(n.fn, pv.v, members(k))
